@@ -205,6 +205,55 @@ pub fn handle(s: &mut Session, rest: &str) -> String {
             }
             new_handle(s, l)
         }
+        "cxrcmp" => {
+            // every c[ad]{1,4}r accessor against its borrow-in-place `_and_then` twin on one object: the names that disagree
+            let o = match h(s, a1) {
+                Some(o) => o,
+                None => return "BADCMD".to_string(),
+            };
+            let mut bad: Vec<&str> = vec![];
+            macro_rules! cmp {
+                ($name:literal, $plain:ident, $then:ident) => {
+                    let a = o.$plain().map(|x| canon_string(&x)).map_err(|_| ());
+                    // (past the end of a list the `_and_then` form yields the default value of its result type: "" here, nil there)
+                    let b = o.$then(|x| Ok(canon_string(x))).map(|t| if t.is_empty() { "nil".to_string() } else { t }).map_err(|_| ());
+                    if a != b {
+                        bad.push($name);
+                    }
+                };
+            }
+                cmp!("car", car, car_and_then);
+                cmp!("cdr", cdr, cdr_and_then);
+                cmp!("caar", caar, caar_and_then);
+                cmp!("cadr", cadr, cadr_and_then);
+                cmp!("cdar", cdar, cdar_and_then);
+                cmp!("cddr", cddr, cddr_and_then);
+                cmp!("caaar", caaar, caaar_and_then);
+                cmp!("caadr", caadr, caadr_and_then);
+                cmp!("cadar", cadar, cadar_and_then);
+                cmp!("caddr", caddr, caddr_and_then);
+                cmp!("cdaar", cdaar, cdaar_and_then);
+                cmp!("cdadr", cdadr, cdadr_and_then);
+                cmp!("cddar", cddar, cddar_and_then);
+                cmp!("cdddr", cdddr, cdddr_and_then);
+                cmp!("caaaar", caaaar, caaaar_and_then);
+                cmp!("caaadr", caaadr, caaadr_and_then);
+                cmp!("caadar", caadar, caadar_and_then);
+                cmp!("caaddr", caaddr, caaddr_and_then);
+                cmp!("cadaar", cadaar, cadaar_and_then);
+                cmp!("cadadr", cadadr, cadadr_and_then);
+                cmp!("caddar", caddar, caddar_and_then);
+                cmp!("cadddr", cadddr, cadddr_and_then);
+                cmp!("cdaaar", cdaaar, cdaaar_and_then);
+                cmp!("cdaadr", cdaadr, cdaadr_and_then);
+                cmp!("cdadar", cdadar, cdadar_and_then);
+                cmp!("cdaddr", cdaddr, cdaddr_and_then);
+                cmp!("cddaar", cddaar, cddaar_and_then);
+                cmp!("cddadr", cddadr, cddadr_and_then);
+                cmp!("cdddar", cdddar, cdddar_and_then);
+                cmp!("cddddr", cddddr, cddddr_and_then);
+            format!("CXR {}", bad.join(","))
+        }
         "bigiter" => {
             // bigiter <n> [<stack KiB>]: collect n integers into a list through FromIterator, measure it, sum it through a typed
             // iterator, copy it; with a second argument the whole thing runs on a thread with that much stack (collecting is
